@@ -39,6 +39,7 @@ type e2eConfig struct {
 	noshuf  bool
 	canary  int
 	spill   int
+	fastKeepalive bool
 }
 
 func parseConfig(s string) e2eConfig {
@@ -52,6 +53,8 @@ func parseConfig(s string) e2eConfig {
 			c.mc = true
 		case t == "NOSHUF":
 			c.noshuf = true
+		case t == "KA":
+			c.fastKeepalive = true
 		case strings.HasPrefix(t, "CH"):
 			c.chunk = atoi(t[2:])
 		case strings.HasPrefix(t, "CA"):
@@ -100,9 +103,17 @@ func startSession(cfg e2eConfig) *e2eSession {
 	if cfg.bm {
 		s.sys = testsystem.New()
 		s.sys.Machineprocs = cfg.procs
-		s.sys.KeepalivePeriod = 500 * time.Millisecond
-		s.sys.KeepaliveTimeout = 2 * time.Second
-		s.sys.KeepaliveRpcTimeout = 500 * time.Millisecond
+		if cfg.fastKeepalive {
+			// machine-loss cases: a killed machine must be noticed quickly
+			s.sys.KeepalivePeriod = 500 * time.Millisecond
+			s.sys.KeepaliveTimeout = 2 * time.Second
+			s.sys.KeepaliveRpcTimeout = 500 * time.Millisecond
+		} else {
+			// failure-free cases: a loaded sandbox must not make a machine look lost
+			s.sys.KeepalivePeriod = 5 * time.Second
+			s.sys.KeepaliveTimeout = 120 * time.Second
+			s.sys.KeepaliveRpcTimeout = 60 * time.Second
+		}
 		opts = append(opts, exec.Bigmachine(s.sys), exec.MaxLoad(float64(cfg.load)/100))
 		if cfg.mc {
 			opts = append(opts, exec.MachineCombiners)
